@@ -37,7 +37,8 @@ def declared (T : Name) (blocks : List (List VSpec)) : List Const :=
 
 def Input.decl (i : Input) : List Const := declared i.T i.blocks
 
-/-- everything makeStr walks over -/
+/-- every const declaration of the package, those inside function bodies included (only used to say
+    that a case is a well-formed package; makeStr walks `blocks` alone) -/
 def Input.allBlocks (i : Input) : List (List VSpec) := i.blocks ++ i.locals
 
 /-! ## C04 -/
@@ -69,7 +70,8 @@ def specGuard (decl : List Const) (cur : Name → Option Int) : Bool :=
 
 /-! ### regions of C04 (also the enum-level part of C12 and C14)
 
-* function-local const blocks and specs with a non-identifier type: see `F_local_const`, `F_nonident_type`.
+* function-local const blocks and specs with a non-identifier type (`pkg.T`, `(T)`) are ordinary
+  members of the grammar since /repo 17b8707 / b44c047 (former regions F_local_const, F_nonident_type).
 * grammar (`grammarOK`): the type name is not empty; the kind has 1 to 64 bits; names and values are aligned; no spec gets type T through a typed expression (`X = T(5)`): the property's
   grammar has every constant of T introduced by an explicit `T` or carried down from one.
   Outside ⇒ `Out`.
@@ -84,27 +86,17 @@ def specGuard (decl : List Const) (cur : Name → Option Int) : Bool :=
 -/
 
 def specOK (T : Name) (s : VSpec) : Bool :=
-  s.names.length == s.vals.length && !(s.ty.isNone && s.hasVals && s.exprTy == some T) &&
-    (s.tyIdent || (s.ty.isSome && s.ty != some T))
-
-/-- a spec whose type is not a plain identifier is not followed by an empty spec (which would repeat
-    it by the Go rule, but carry the REMEMBERED type in makeStr) -/
-def noCarryAfterNonIdent : List VSpec → Bool
-  | [] => true
-  | [_] => true
-  | s :: s' :: rest =>
-    (s.tyIdent || s.ty.isNone || s'.ty.isSome || s'.hasVals) && noCarryAfterNonIdent (s' :: rest)
+  s.names.length == s.vals.length && !(s.ty.isNone && s.hasVals && s.exprTy == some T)
 
 /-- the syntactic grammar under which `C04_collect` shows that the loop of makeStr finds exactly the
-    declared constants -/
+    declared constants: the type name is an identifier, no spec gets the type through a typed expression -/
 def grammarOK (i : Input) : Bool :=
-  !i.T.isEmpty && decide (0 < i.kind.bits) && decide (i.kind.bits ≤ 64) &&
-    i.blocks.all (fun b => b.all (specOK i.T) && noCarryAfterNonIdent b) &&
-    i.locals.all (fun b => b.all (fun s => specOK i.T s && s.ty != some i.T) && noCarryAfterNonIdent b)
+  !i.T.isEmpty && !qualified i.T && decide (0 < i.kind.bits) && decide (i.kind.bits ≤ 64) &&
+    i.blocks.all (fun b => b.all (specOK i.T))
 
 /-- the case is well formed at all (a real package) -/
 def basicOK (i : Input) : Bool :=
-  !i.T.isEmpty && decide (0 < i.kind.bits) && decide (i.kind.bits ≤ 64) &&
+  !i.T.isEmpty && !qualified i.T && decide (0 < i.kind.bits) && decide (i.kind.bits ≤ 64) &&
     i.allBlocks.all (fun b => b.all (fun s => s.names.length == s.vals.length))
 
 def nodupOK (T : Name) (decl : List Const) : Bool :=
@@ -118,26 +110,12 @@ def valuesInKind (k : Kind) (decl : List Const) : Bool := decl.all (fun c => k.h
     grammar `grammarOK` is inside), there is at least one, values and trimmed names are distinct and
     the values are values of the type -/
 def WF (i : Input) : Bool :=
-  basicOK i && (collect i.T i.allBlocks == i.decl) && !i.decl.isEmpty && nodupOK i.T i.decl &&
+  basicOK i && (collect i.T i.blocks == i.decl) && !i.decl.isEmpty && nodupOK i.T i.decl &&
     valuesInKind i.kind i.decl
 
-/-- a const declaration inside a function body contributes constants to the tables: legal Go, the
-    enum declaration itself is in the grammar, the output names constants that do not exist at
-    package level ⇒ finding -/
-def F_local_const (i : Input) : Bool :=
-  basicOK i && !(collect i.T i.allBlocks == collect i.T i.blocks)
+def Out (i : Input) : Bool := !WF i
 
-/-- a spec whose type is not a plain identifier (`Wait time.Duration = 5` followed by an empty spec
-    while T is remembered: constants of another type land in T's tables; `X (T) = 7`: a constant of T
-    is silently left out) ⇒ finding -/
-def F_nonident_type (i : Input) : Bool :=
-  basicOK i && !F_local_const i && !(collect i.T i.blocks == i.decl) &&
-    i.blocks.any (fun b => b.any (fun s => !s.tyIdent))
-
-def Out (i : Input) : Bool := !(WF i || F_local_const i || F_nonident_type i)
-
-def region (i : Input) : String :=
-  if WF i then "WF" else if F_local_const i then "F_local_const" else if F_nonident_type i then "F_nonident_type" else "Out"
+def region (i : Input) : String := if WF i then "WF" else "Out"
 
 /-! ## C12 -/
 
@@ -152,10 +130,6 @@ def SqlIn.asName : SqlIn → Option Name
   | .str s => some s
   | .other => none
 
-/-- `Scan` only accepts `[]byte`: the string that the enum's own `Value()` returns is refused, so the
-    SQL pair does not round-trip through the driver.Value it produces ⇒ `F_sql_value_string` (every
-    -sql enum; observed in a case of its own: Scan(Value(c)) for every declared c, Scan(string)) -/
-def F_sql_value_string (sql : Bool) : Bool := sql
 
 /-- decode: a declared (trimmed) name yields its constant; anything else is an error and the
     target keeps its value.  (ok?, target afterwards) -/
@@ -172,6 +146,7 @@ def specIsEnum (decl : List Const) (v : Int) : Bool := decl.any (fun c => c.val 
 
 /-- observation of a decode method as the property sees it -/
 def Dec.obs (d : Dec) : Bool × Int := (d.1.isNone, d.2)
+
 
 /-! IsEnum probes `(kV, p)`: `p` an integer of the type TV of kind `kV`.  Since /repo ffb3b3d the
     conversion must round-trip (no truncation) and since 2c3f80e the signs must agree (no
@@ -284,8 +259,6 @@ int32, uint32).  The classes are those of C04 / C14, read off what the generator
 * `-bit` ⇒ `F_enumBitMap` (undefined `_<t>_map`);
 * an identifier of the input package that collides with a name the template introduces (an import
   name such as `fmt` / `json`, a listed constant `x`, a one-letter lower-case type) ⇒ `F_enumIdentClash`;
-* a table naming a function-local constant or a constant of another type (a spec with a
-  non-identifier type, see C04) ⇒ `F_enumForeignConst`;
 * two constants with the same value or the same trimmed name ⇒ `F_enumDupKey` (duplicate map keys);
 * otherwise `WF`: exit 0, header, gofmt-clean, same package, compiles.
 -/
@@ -306,7 +279,7 @@ structure PkgCase where
   wellFormed : Bool
 
 def PkgCase.tablesOf (p : PkgCase) : List (Name × List Const) :=
-  (p.types.map (fun t => (t.1, sortC t.2 (collect t.1 (p.blocks ++ p.locals))))).filter (fun e => !e.2.isEmpty)
+  (p.types.map (fun t => (t.1, sortC t.2 (collect t.1 p.blocks)))).filter (fun e => !e.2.isEmpty)
 
 /-- the package names the emitted file imports under the given flags (`fmt` always: String() calls
     fmt.Sprintf).  A package-level identifier of the same name anywhere in the input package either
@@ -325,10 +298,6 @@ def PkgCase.hasClash (p : PkgCase) : Bool :=
     p.tablesOf.any (fun e => e.2.any (fun c => c.name == ['x']) ||
       (match e.1 with | [ch] => ch.isLower | _ => false))
 
-/-- some table names a constant that is not a package-level constant of the type -/
-def PkgCase.hasForeign (p : PkgCase) : Bool :=
-  p.tablesOf.any (fun e => !e.2.all (fun c => (declared e.1 p.blocks).contains c))
-
 def PkgCase.hasDup (p : PkgCase) : Bool :=
   p.tablesOf.any (fun e => !(decide (valuesT e.2).Nodup && decide (stringsT e.1 e.2).Nodup))
 
@@ -336,7 +305,6 @@ def c01Region (p : PkgCase) : String :=
   if !p.wellFormed || (p.gorm && !p.sql) || p.tablesOf.isEmpty then "Out"
   else if p.bit then "F_enumBitMap"
   else if p.hasClash then "F_enumIdentClash"
-  else if p.hasForeign then "F_enumForeignConst"
   else if p.hasDup then "F_enumDupKey"
   else "WF"
 
